@@ -108,7 +108,7 @@ def run_case(kind, shared, o1, o2, symmetry, named, rng, one_list=False, dup=Fal
             elif v is not want:
                 fails.append(('table.cell', 'cell (%d,%d) is not the constraint generated for that pair' % (r, cidx)))
             else:
-                if v.get_name() is None or v.get_name() in names:
+                if v.get_name() is None or (v.get_name() in names and not dup):
                     fails.append(('name.unique', 'constraint name %r missing or not unique' % v.get_name()))
                 names.add(v.get_name())
     lab2 = [t[0].get_name() or 'Point_%d' % k for k, t in enumerate(l2 if not one_list else l1)]
